@@ -53,6 +53,16 @@ Section Abstract.
                         end
                     | None => None
                     end
+                | [a1; a2; a3; body] =>
+                    match assign_pair a1, assign_pair a2, assign_pair a3 with
+                    | Some (t1, e1), Some (t2, e2), Some (t3, e3) =>
+                        match temp_index vp t1, abstract f e1, temp_index vp t2, abstract f e2,
+                              temp_index vp t3, abstract f e3, abstract f body with
+                        | Some n1, Some x1, Some n2, Some x2, Some n3, Some x3, Some b => Some (Hoist3 n1 x1 n2 x2 n3 x3 b)
+                        | _, _, _, _, _, _, _ => None
+                        end
+                    | _, _, _ => None
+                    end
                 | [a1; a2; body] =>
                     match assign_pair a1, assign_pair a2 with
                     | Some (t1, e1), Some (t2, e2) =>
@@ -82,7 +92,7 @@ Section Abstract.
         | Node (K KCall _ _) [_; callee; Node Lst args; _] =>
             match hook_callee_name callee with
             | Some name =>
-                if String.eqb name hook then
+                if String.eqb name hook || negb (String.eqb name "") then
                   match args with
                   | first :: rest =>
                       match plain_arg first with
@@ -98,8 +108,28 @@ Section Abstract.
                   end
                 else None
             | None =>
-                match args with
-                | [a] =>
+                match callee, args with
+                | Node (K KMember _ _) [obj; Node (K KIdentName _ _) [Node (Str mname) []]], [a] =>
+                    (* a method call o.m(a) *)
+                    match plain_arg a with
+                    | Some ae =>
+                        match abstract f obj, abstract f ae with
+                        | Some ox, Some ax => Some (MCall1 ox mname ax)
+                        | _, _ => None
+                        end
+                    | None => None
+                    end
+                | Node (K KMember _ _) [fn; Node (K KIdentName _ _) [Node (Str "call") []]], [th; a] =>
+                    (* fn.call(this, a), as the rewriter builds it *)
+                    match plain_arg th, plain_arg a with
+                    | Some te, Some ae =>
+                        match abstract f fn, abstract f te, abstract f ae with
+                        | Some fx, Some tx, Some ax => Some (CallT1 fx tx ax)
+                        | _, _, _ => None
+                        end
+                    | _, _ => None
+                    end
+                | _, [a] =>
                     match plain_arg a with
                     | Some ae =>
                         match abstract f callee, abstract f ae with
@@ -108,9 +138,12 @@ Section Abstract.
                         end
                     | None => None
                     end
-                | _ => None
+                | _, _ => None
                 end
             end
+        | Node (K KMember _ _) [obj; Node (K KIdentName _ _) [Node (Str mname) []]] =>
+            (* a property read: only as the function the rewriter captures *)
+            match abstract f obj with Some ox => Some (Get ox mname) | None => None end
         | _ => None
         end
     end.
@@ -133,6 +166,11 @@ Fixpoint expr_eqb (a b : expr) : bool :=
   | Add l r, Add l' r' => expr_eqb l l' && expr_eqb r r'
   | CallE f x, CallE f' x' => expr_eqb f f' && expr_eqb x x'
   | Par x, Par y => expr_eqb x y
+  | MCall1 o m a, MCall1 o' m' a' => expr_eqb o o' && String.eqb m m' && expr_eqb a a'
+  | Get o m, Get o' m' => expr_eqb o o' && String.eqb m m'
+  | CallT1 f t a, CallT1 f' t' a' => expr_eqb f f' && expr_eqb t t' && expr_eqb a a'
+  | Hoist3 n1 e1 n2 e2 n3 e3 b, Hoist3 m1 f1 m2 f2 m3 f3 c =>
+      Nat.eqb n1 m1 && expr_eqb e1 f1 && Nat.eqb n2 m2 && expr_eqb e2 f2 && Nat.eqb n3 m3 && expr_eqb e3 f3 && expr_eqb b c
   | Hoist2 n1 e1 n2 e2 b, Hoist2 m1 f1 m2 f2 c =>
       Nat.eqb n1 m1 && expr_eqb e1 f1 && Nat.eqb n2 m2 && expr_eqb e2 f2 && expr_eqb b c
   | Hoist1 n1 e1 b, Hoist1 m1 f1 c => Nat.eqb n1 m1 && expr_eqb e1 f1 && expr_eqb b c
@@ -167,7 +205,7 @@ Inductive tie_result := TieNotCore | TieNoOutput | TieAgree | TieDiffer.
 
 (** [sem_tie vp hook ast_in ast_out]: rewrite the abstraction of the input's expression with [Sem.rw]
     from counter 0 and compare with the abstraction of the output's expression. *)
-Definition sem_tie (vp hook : string) (ast_in ast_out : node) : tie_result :=
+Definition sem_tie (vp hook : string) (instr lit_ok : string -> bool) (ast_in ast_out : node) : tie_result :=
   match last_return ast_in with
   | None => TieNotCore
   | Some ein =>
@@ -179,7 +217,7 @@ Definition sem_tie (vp hook : string) (ast_in ast_out : node) : tie_result :=
           | Some eout =>
               match abstract vp hook (S (node_depth eout)) eout with
               | None => TieDiffer
-              | Some o => if expr_eqb (fst (rw e 0)) o then TieAgree else TieDiffer
+              | Some o => if expr_eqb (fst (rw instr lit_ok e 0)) o then TieAgree else TieDiffer
               end
           end
       end
